@@ -192,7 +192,7 @@ def w_decode(t, j):
 
 BIN_SRC = {"add": "+", "sub": "-", "band": "&", "bor": "|", "bxor": "^", "shl": "<<", "shr": ">>",
            "eq": "==", "ne": "!=", "lt": "<", "le": "<=", "gt": ">", "ge": ">=", "and": "and", "or": "or"}
-W_OPS = {"add", "band", "bor", "bxor", "shl", "shr", "eq", "ne", "and", "or"}
+W_OPS = {"add", "sub", "band", "bor", "bxor", "shl", "shr", "eq", "ne", "lt", "le", "gt", "ge", "and", "or"}
 
 
 def exp_src(e):
@@ -462,6 +462,10 @@ def leaves(args, locs):
 
 def gen_int(rng, lv, depth, need_var=True):
     ints = [(e, t) for e, t in lv if t != "bool"]
+    if not ints:
+        # no integer variable in scope: a bare literal (operators on two literals are folded by the library's
+        # ConstantFolder with python semantics before typing, which the width model does not describe)
+        return CI(rng.choice([0, 1, 2, 3, 4, 5, 7]))
     if depth <= 0 or rng.random() < 0.25:
         if ints and (need_var or rng.random() < 0.75):
             return rng.choice(ints)[0]
@@ -654,6 +658,33 @@ def model_ty_src(j):
     return j[1]
 
 
+def front_end_quirks():
+    """probe the real front end for C01's narrow-left defects (flags of QV.Base.Quirks)"""
+    qlasskit, _ = lib()
+    out = []
+
+    def value(src, x, rty):
+        qf = qlasskit.qlassf(src, to_compile=False)
+        known = {}
+        for a in qf.args:
+            for i, n in enumerate(a.bitvec):
+                known[n] = bool((x[a.name] >> i) & 1)
+        known = eval_expressions(qf, known)
+        return [known[n] for n in qf.returns.bitvec]
+
+    try:
+        if value("def c08_pg(a: Qint[2], b: Qint[4]) -> bool:\n\treturn a > b", {"a": 0, "b": 4}, "bool") != [False]:
+            out.append("gtLeftNarrow")
+    except Exception:
+        pass
+    try:
+        if value("def c08_ps(a: Qint[2], b: Qint[4]) -> Qint[4]:\n\treturn a - b", {"a": 3, "b": 0}, None) != [True, True, False, False]:
+            out.append("subLeftNarrow")
+    except Exception:
+        pass
+    return out
+
+
 def fingerprint(u):
     return (ast.dump(u.fun_ast), json.dumps({k: ast.dump(v) for k, v in u.parameters.items()}))
 
@@ -668,6 +699,9 @@ class Checker:
                           rows_type_drop=0, rows_front_end_c01=0, error_cases=0, width_rows=0,
                           width_programs=0, pysem_rows=0, fresh_checks=0, loop_bound_rejected=0)
         self.model_down = False
+        # C01's listed defects of QintImp.gt / QintImp.sub reach C08 through the narrow injected constants: the
+        # width-aware model takes them as quirks; whether they are still in the code is probed here
+        self.wquirks = list(self.active) + front_end_quirks()
 
     # ---- helpers
     def model(self, reqs):
@@ -923,7 +957,7 @@ class Checker:
                          "rows": [[py_value(row_inputs(free, i)[a["name"]]) for a in free] for i in range(nrows)]})
             req_meta.append(("py", case, (py_rows, free)))
         if in_width_model(p):
-            reqs.append({"op": "c08.eval", "alg": "w", "rty": ty_model(p["rty"]), "quirks": self.active, "prog": pm,
+            reqs.append({"op": "c08.eval", "alg": "w", "rty": ty_model(p["rty"]), "quirks": self.wquirks, "prog": pm,
                          "kv": [[n, pyval_json(v)] for n, v in kv],
                          "rows": [[w_value(a["ty"], row_inputs(free, i)[a["name"]]) for a in free] for i in range(nrows)]})
             req_meta.append(("w", case, (tab, suspects, free, kv)))
@@ -1123,10 +1157,12 @@ def run(ctx: Ctx) -> Result:
                            "end's translation of a parameter-free source (C01) is a hypothesis measured per row, not proved here")
     res.assumptions.append("C08: keyword arguments are distinct and argument names are distinct (guaranteed by CPython's call "
                            "and def syntax) - hypotheses KwOk / WellFormed of the theorems")
-    if ck.stats["programs"] and ck.stats["rejected_binds"] > ck.stats["binds"] // 2:
-        raise RuntimeError("generator collapse: most binds are rejected")
-    if ck.stats["rows"] and ck.stats["rows_python_agree"] < ck.stats["rows"] // 3:
-        raise RuntimeError("generator collapse: too few rows comparable with CPython")
+    if not res.violations and not res.disagreements:
+        # (with a failing input in hand the verdict comes first)
+        if ck.stats["programs"] and ck.stats["rejected_binds"] > ck.stats["binds"] // 2:
+            raise RuntimeError("generator collapse: most binds are rejected")
+        if ck.stats["rows"] and ck.stats["rows_python_agree"] < ck.stats["rows"] // 3:
+            raise RuntimeError("generator collapse: too few rows comparable with CPython")
     return res
 
 
